@@ -467,11 +467,25 @@ pub fn effect_violations(w: &World, scn: &Scn, res: &Res, before: &Snapshot, tra
             ));
         }
     };
+    // the write-side copy of the key carries the read mark (atime >= mtime)
+    let unmarked = |bad: &mut Vec<(String, String)>, what: &str| {
+        for d in ops::candidate_dirs(&w.dirs.write, w.front, &key) {
+            if let Some(m) = world::lstat(&d.join("key")) {
+                if m.atime < m.mtime {
+                    bad.push(("success-without-effect".into(), format!("{} reported success but the entry is not marked as used (atime < mtime)", what)));
+                }
+            }
+        }
+    };
     match (&w.op, res) {
         (Op::Set(..), Res::Unit) | (Op::SetTemp(..), Res::Unit) => stored(&mut bad, newv.as_ref().unwrap()),
         (Op::Put(..), Res::Unit) | (Op::PutTemp(..), Res::Unit) => {
             let want = had.clone().unwrap_or_else(|| newv.clone().unwrap());
             stored(&mut bad, &want);
+            if had.is_some() {
+                // a put onto an existing key has no other effect than marking it as used
+                unmarked(&mut bad, "put onto the existing key");
+            }
         }
         (Op::Ensure(..), Res::Hit(b)) => {
             // hit in the write cache -> that value; hit in the read-only level -> promoted; miss -> populated
@@ -503,6 +517,9 @@ pub fn effect_violations(w: &World, scn: &Scn, res: &Res, before: &Snapshot, tra
         (Op::Touch(_), Res::Bool(b)) => {
             if *b && had.is_none() && ro.is_none() {
                 bad.push(("wrong-value".into(), "touch reported presence of an absent key".into()));
+            }
+            if *b && had.is_some() {
+                unmarked(&mut bad, "touch");
             }
         }
         (_, Res::Err(..)) | (_, Res::Panic(_)) => {}
